@@ -285,6 +285,7 @@ func c17Directed() []Directed {
 		directedHist("rejected-new-pattern-beside-live-route", "C17", noneIC, false, hOps(H("/posts/{id}/author", "GET"), H("/posts/{id}/books", "GET", "GET")), g("/posts/a/b/author"), g("/posts/a/books")),
 		directedHist("rejected-new-pattern-changes-priority", "C17", noneIC, false, hOps(H(`/posts/{name:\w+}/author`, "GET"), H(`/posts/{id:\d+}/author`, "GET"), H(`/posts/{id:\d+}/books`, "POST", "GET", "POST")), g("/posts/1/author")),
 		directedHist("twin-of-only-route", "C17", noneIC, false, hOps(H("/u/{id}", "GET"), H("/u/{name}", "GET"))),
+		directedHist("twin-by-white-space-in-the-name", "C17", noneIC, false, hOps(H("/posts/{id}", "GET"), H("/posts/{id }", "POST")), g("/posts/7")),
 		directedHist("twin-ignore-flag", "C17", noneIC, false, hOps(H("/u/{id}/x", "GET"), H("/u/{-id}/x", "POST"))),
 		directedHist("non-twin-never-ambiguous", "C17", noneIC, false, hOps(H("/u/{id}/x", "GET"), H("/u/{name}/y", "GET"), H(`/u/{id:\d+}/x`, "GET"))),
 		directedHist("non-utf8-literal-after-regexp", "C17", noneIC, false, hOps(H("/a/x", "GET"), H("/a/{d:\\d+}\xe4", "GET"))),
